@@ -7,10 +7,10 @@ cd $WT || exit 2
 git checkout -q -- . ; git apply --check $OUT/patch.diff; AP=$?; git apply $OUT/patch.diff   # (no git stash: the stash is shared between worktrees)
 echo "patch applies to pristine: rc=$AP"
 T0=$(date +%s)
-PYTHONPATH=$WT /venv/bin/python -m pytest -q -p no:cacheprovider --timeout=900 tests 2>&1 | tail -1 > $D/suite_with_patch.txt
+OMP_NUM_THREADS=4 MKL_NUM_THREADS=4 PYTHONPATH=$WT /venv/bin/python -m pytest -q -p no:cacheprovider --timeout=900 tests 2>&1 | tail -1 > $D/suite_with_patch.txt
 cat $D/suite_with_patch.txt
-PYTHONPATH=$WT timeout 300 /venv/bin/python $OUT/demo.py > $D/demo_with_patch.txt 2>&1; RC1=$?
-PYTHONPATH=/repo timeout 300 /venv/bin/python $OUT/demo.py > $D/demo_without_patch.txt 2>&1; RC0=$?
+OMP_NUM_THREADS=4 PYTHONPATH=$WT timeout 300 /venv/bin/python $OUT/demo.py > $D/demo_with_patch.txt 2>&1; RC1=$?
+OMP_NUM_THREADS=4 PYTHONPATH=/repo timeout 300 /venv/bin/python $OUT/demo.py > $D/demo_without_patch.txt 2>&1; RC0=$?
 echo "demo with patch rc=$RC1 (want 1); without rc=$RC0 (want 0); $(( $(date +%s)-T0 ))s"
 cp $OUT/patch.diff $OUT/demo.py $D/
 python3 - <<PY
